@@ -15,7 +15,8 @@ out.append("")
 missed_first = 0
 for m in rows:
     det = m["detected"]
-    if "MISSED" in det or "no-failing-input-found" in det.split("Strengthened")[0].split("Now")[0] and "first run" in det:
+    low = det.lower()
+    if "MISSED" in det or low.startswith("missed first") or low.startswith("missed") or "no-failing-input-found" in det.split("Strengthened")[0].split("Now")[0] and "first run" in det:
         missed_first += 1
     out.append("* **%s** (%s) — breaks: %s.  Needs: %s.  **Result:** %s" % (m["seed"], m["property"], m["breaks"], m["needs_to_manifest"], det))
 out.append("")
